@@ -3,7 +3,7 @@
  The repeat-save machine of NifWire.tla: one live model is saved three times (raw options, and default options after a
  normalising first default save) with the full query battery before and after each save. The harness runs it on the 26 sample
  files (fresh and after a seeded sequence of block-graph edits) and on synthesised instances of the registered block types in
- seven versions; TLC judges every record: files 2 and 3 equal file 1 after canonical string-table renumbering (every index
+ seven versions; TLC judges every record: the save made before any query equals the one made after the battery, files 2 and 3 equal file 1 after canonical string-table renumbering (every index
  compared through the string it denotes), and the battery answers identically before and after every save."""
 import json
 import os
@@ -39,13 +39,15 @@ def run(tier):
         if key in seen:
             continue
         seen.add(key)
-        small = {k: ev[k] for k in ev if k not in ("S1", "S2", "S3", "q0", "q1", "q2", "q3")}
+        small = {k: ev[k] for k in ev if k not in ("S0", "S1", "S2", "S3", "q0", "q1", "q2", "q3")}
         if "q0" in ev:
             small["queries_changed"] = sorted({k for k in ev["q0"] if not (ev["q0"].get(k) == ev["q1"].get(k) == ev["q2"].get(k) == ev["q3"].get(k))})[:12]
             f1, f2 = ev["S1"], ev["S2"]
             small["first_block_diff_1_2"] = next((i for i, (a, b) in enumerate(zip(f1["blocks"], f2["blocks"])) if (a["type"], a["size"], a["cid"], a["wrefs"]) != (b["type"], b["size"], b["cid"], b["wrefs"])), None)
-            small["nblocks"] = [f1["nblocks"], f2["nblocks"], ev["S3"]["nblocks"]]
+            small["nblocks"] = [ev["S0"]["nblocks"], f1["nblocks"], f2["nblocks"], ev["S3"]["nblocks"]]
+            small["first_block_diff_0_1"] = next((i for i, (a, b) in enumerate(zip(ev["S0"]["blocks"], f1["blocks"])) if (a["type"], a["size"], a["cid"], a["wrefs"]) != (b["type"], b["size"], b["cid"], b["wrefs"])), None)
         sig = {"check": "C02", "event": ev["e"], "clauses": sorted(v["clauses"]), "opt": ev.get("opt"), "variant": ev.get("variant")}
+        sig["stripPartitions"] = bool(ev.get("stripPartitions"))
         for k in ("file", "type", "ver"):
             if k in c:
                 sig[k] = c[k]
